@@ -225,6 +225,17 @@ func (b *backend) ConsensusParams(ctx context.Context, height *int64) (*ctypes.R
 	return res, nil
 }
 
+// TxSearch is relayed unverified by the verifying client: the real rpc/core handler answers
+func (b *backend) TxSearch(ctx context.Context, query string, prove bool, page, perPage *int, orderBy string) (*ctypes.ResultTxSearch, error) {
+	hon, err := core.TxSearch(rctx, query, prove, page, perPage, orderBy)
+	if err != nil {
+		return nil, err
+	}
+	res := new(ctypes.ResultTxSearch)
+	roundTrip(hon, res)
+	return res, nil
+}
+
 func (b *backend) Commit(ctx context.Context, height *int64) (*ctypes.ResultCommit, error) {
 	b.unexpected = append(b.unexpected, "Commit")
 	return nil, errBackend
